@@ -58,6 +58,15 @@ MUTANTS = {
     "c15-loaded-mesh-not-adapted": ("C15", "EasyFEA/Simulations/_simu.py",
         "            mesh = self._Adapt_loaded_mesh(Load_Mesh(Folder.Join(folder, mesh)))\n",
         "            mesh = Load_Mesh(Folder.Join(folder, mesh))\n"),
+    "c20-ghost-search-among-the-nodes-of-the-same-type": ("C20", "EasyFEA/FEM/_mesher.py",
+        "                mask = np.isin(other_connect, ownedNodes_arr).any(axis=1)\n",
+        "                mask = np.isin(other_connect, nodes_arr).any(axis=1)\n"),
+    "c19-jacobian-without-the-backstress-branch-block": ("C19", "EasyFEA/Models/InElastic/_behavior.py",
+        "                    J_e_pg[..., Bk, slot] = branch.g * dG_e_pg * dNdSig_C\n",
+        "                    pass\n"),
+    "c11-anisotropic-3d-voigt-taken-as-kelvin-mandel": ("C11", "EasyFEA/Models/Elastic/_laws.py",
+        "        else:\n            C_mandel_global = C_mandel\n",
+        "        else:\n            C_mandel_global = C\n"),
     # ---- C03
     "c03-csr-key-without-ndof": ("C03", "EasyFEA/Simulations/_simu.py",
         "        inv, indices, indptr, nnz = self.__Get_csr_map(dof_n, isMatrix, Ndof, groups)\n",
